@@ -207,6 +207,10 @@ func c05Strata() []*gast.Grammar {
 		mk(r("S", gast.S(gast.Star(gast.S(gast.L("a"), gast.St(1, box), gast.L("b"))), gast.Opt(gast.S(gast.St(2, box), gast.L("z"))), obs(3), gast.Star(gast.Dot())))),
 		// action scribbling
 		mk(r("S", gast.S(gast.St(1, box), gast.A(gast.L("a"), 2, mon.Spec{Scr: true}), obs(3), gast.Star(gast.Dot())))),
+		// a label thrown below two nested recovery expressions for it, both of which change the state and fail
+		mk(r("S", gast.S(gast.St(1, box), gast.Star(gast.C(gast.S(gast.Ref("G"), obs(2)), gast.S(gast.Cl(gast.Chars("ab")), obs(3)))), obs(4), gast.Star(gast.Dot()))),
+			r("G", gast.Rec(gast.Ref("I"), gast.S(gast.St(5, box), gast.L("q")), "L1")),
+			r("I", gast.Rec(gast.S(gast.L("a"), gast.St(6, box), gast.C(gast.L("a"), gast.Thr("L1"))), gast.S(gast.St(7, box), gast.L("r")), "L1"))),
 	}
 }
 
